@@ -89,4 +89,14 @@ META = {
          'persisting, sending, locking, replaying, registering, random programs and prime-sized backlogs (up to 4099 in thorough); the abstract spec owes each (subscription, '
          'message) pair exactly once, a second receipt without Nack or a missing one at quiescence is rejected',
     design_ref='DESIGN.md 6/C11', note="The abstract oracle (GoChannelAbs.tla) constrains only API-observable events; linearization points are searched by TLC (volatile mode) or taken eagerly where their order is provably immaterial (persistent mode). Bounded: design model 2 publishers x 2 subscriptions x 2 messages; harness programs up to 14 subscriptions.", technique='TLC model checking of replay/registration atomicity + trace validation with an exactly-once oracle'),
+ 'C06': dict(
+    text='RouterLifecycle.tla models Run/RunHandlers/the decorator pump/the receive loop/handleMessage/handleClose/Close with its two waits and the time-out for one handler, '
+         '2 messages, 2 closers; TLC checks Graceful, ErrorOnlyOnTimeout, RunAfterClose, SubClosedAtEnd, DroppedNotHandled and that every Close call returns (fair), and rejects '
+         'the four legacy designs (concurrent waits, ctx.Done branch not closing the subscriber, second Close returning nil at once, Started before stopFn). A real Router is '
+         'driven with the message parked at every point of its path when Close arrives (scripted subscriber and GoChannel, 1..8 closers, 1..3 handlers), with panicking and '
+         'time-out-exceeding handlers and repeated Close; handler start/end, every Close/Run return with the settlement of all emitted messages sampled at that instant, '
+         'subscriber/publisher Close calls are validated against RouterCloseAbs.tla',
+    design_ref='DESIGN.md 6/C06',
+    note='subscriber.Close() is checked at quiescence, not at the instant Close returns (the statement does not require it to be synchronous). Design model: one handler.',
+    technique='TLC model checking of the shutdown protocol + forced-schedule trace validation against an abstract graceful-close spec'),
 }
